@@ -3,7 +3,8 @@
    implementation only (serde_json is an external library); see DESIGN. *)
 From Coq Require Import List NArith Bool.
 From Coq.Strings Require Import Byte.
-From EV Require Import Base.Bytes Base.Codec Model.Tx Model.Ids Proofs.Ids.
+From Coq Require Import Relations Permutation.
+From EV Require Import Base.Bytes Base.Codec Model.Tx Model.Ids Model.Json Proofs.Ids Proofs.Json.
 Import ListNotations.
 Open Scope N_scope.
 
@@ -26,6 +27,17 @@ Proof. exact (three_views_pset H cmp). Qed.
 Theorem C11_three_views_extract : forall i, txin_wfB i = true -> IDS (psetin_extract (psetin_from_txin i)) = IDS i.
 Proof. exact (three_views_extract H cmp). Qed.
 End C11.
+
+(* the JSON contract hash is the hash of the canonical serialisation `canon` (keys of every object in byte order); re-ordering
+   the entries of any object, at any nesting depth, any number of times, does not change it.  (Whitespace and the formatting of
+   scalars are serde_json's parser / printer: the harness parses the text and hands the model the tree.) *)
+Theorem C11_json_order : forall (Hc : bytes -> bytes) (j j' : json), clos_refl_trans json step j j' -> Hc (canon j) = Hc (canon j').
+Proof. intros Hc j j' R. now rewrite (reorder_canon j j' R). Qed.
+Definition qk (s : blit) : bytes := [x22] ++ s ++ [x22].
+Example C11_json_order_example :
+  canon (JObj [(unlit "b"%lb, (qk "b"%lb, JLeaf "1"%lb)); (unlit "a"%lb, (qk "a"%lb, JObj [(unlit "y"%lb, (qk "y"%lb, JLeaf "2"%lb)); (unlit "x"%lb, (qk "x"%lb, JLeaf "3"%lb))]))])
+  = [x7b] ++ qk "a"%lb ++ [x3a; x7b] ++ qk "x"%lb ++ [x3a; x33; x2c] ++ qk "y"%lb ++ [x3a; x32; x7d; x2c] ++ qk "b"%lb ++ [x3a; x31; x7d].
+Proof. vm_compute. reflexivity. Qed.
 
 (* non-vacuity: a canonical new issuance and a canonical reissuance on a pegin input *)
 Definition new_iss_in : txin := {| in_prev := {| o_txid := repeat x11 32; o_vout := 7 |}; in_pegin := false; in_script := []; in_seq := 5;
